@@ -35,6 +35,44 @@ type C14Case struct {
 	StallMS   int    `json:"stall_ms"`   //
 	StartLate int    `json:"start_late"` // ms the consumer waits before its first read
 	Shell     string `json:"shell"`      // perl | sh
+	// InKind is how the input stream hands out its bytes: "" all at once with
+	// EOF on a separate read (bytes.Reader), "data-with-eof" the last chunk
+	// together with io.EOF (as HTTP bodies of known length do), "one-byte"
+	// one byte per read, "chunks" 1000-byte reads with zero-length reads in
+	// between.
+	InKind string `json:"in_kind,omitempty"`
+}
+
+// inReader hands out b according to kind.
+type inReader struct {
+	b    []byte
+	kind string
+	n    int
+}
+
+func (r *inReader) Read(p []byte) (int, error) {
+	r.n++
+	if len(r.b) == 0 {
+		return 0, io.EOF
+	}
+	lim := len(p)
+	switch r.kind {
+	case "one-byte":
+		lim = 1
+	case "chunks":
+		if r.n%2 == 0 {
+			return 0, nil
+		}
+		lim = min(lim, 1000)
+	case "data-with-eof":
+		lim = min(lim, 3000)
+	}
+	n := copy(p[:lim], r.b)
+	r.b = r.b[n:]
+	if r.kind == "data-with-eof" && len(r.b) == 0 {
+		return n, io.EOF
+	}
+	return n, nil
 }
 
 // the child: position-coded alphabets so loss, duplication and reordering
@@ -90,7 +128,11 @@ func runC14(c C14Case) c14Result {
 	if err != nil {
 		panic(err)
 	}
-	sh.SetInput(bytes.NewReader(seq('0', c.Stdin)[:c.Stdin]))
+	if c.InKind == "" {
+		sh.SetInput(bytes.NewReader(seq('0', c.Stdin)[:c.Stdin]))
+	} else {
+		sh.SetInput(&inReader{b: seq('0', c.Stdin)[:c.Stdin], kind: c.InKind})
+	}
 	out := sh.Output()
 	goDone := make(chan error, 1)
 	exited := make(chan struct{})
@@ -249,6 +291,10 @@ func genC14() *rapid.Generator[C14Case] {
 		}
 		if hasI {
 			c.Stdin = rapid.SampledFrom([]int{0, 1, 100, 5000, 70000, 200000}).Draw(t, "stdin")
+			c.InKind = rapid.SampledFrom([]string{"", "data-with-eof", "data-with-eof", "one-byte", "chunks"}).Draw(t, "inkind")
+			if c.InKind == "one-byte" && c.Stdin > 5000 {
+				c.Stdin = 5000
+			}
 		}
 		c.Exit = rapid.SampledFrom([]int{0, 0, 0, 1, 2, 42, 255}).Draw(t, "exit")
 		if rapid.IntRange(0, 7).Draw(t, "signalled") == 0 {
@@ -316,6 +362,9 @@ func c14Classes(c C14Case, r c14Result) []string {
 	}
 	if c.Stdin > 0 {
 		cl = append(cl, "stdin-echo")
+		if c.InKind != "" {
+			cl = append(cl, "stdin-reader-"+c.InKind)
+		}
 	}
 	for _, a := range c.Acts {
 		if a.Op == "e" && a.N > 0 {
